@@ -42,6 +42,12 @@ FIXED = [
  ("C01", "fix: converting an enormous range to an array is an error", "{{ (1..9223372036854775807) | first }} (any array filter on a range of more than 2^31 elements) panicked with 'makeslice: cap out of range' or tried to allocate the whole range"),
  ("C01", "fix: ExpandTagArg and RenderFile work from a block's renderer", "a block registered with RegisterBlock whose renderer calls ExpandTagArg on an argument containing {{ ... }} (or RenderFile on an existing file) panicked with a nil pointer dereference (render/context.go used the tag node, which is nil for blocks)"),
  ("C19", "fix: ExpandTagArg recognises objects written with custom delimiters", "with Delims(\"<<\", \">>\", ...) the argument of an application tag such as {% xecho pre-<< x >>-post %} was returned unexpanded (only the literal {{ was looked for), unlike its default-delimiter spelling on a default engine"),
+ ("C01", "fix: values of named string types", "{{ t.size }} / {% if t contains 'x' %} with t of a named string type (type Title string, json.Number) panicked on an unchecked .(string) assertion; sort: 'k' over maps keyed by a named string type panicked in MapIndex; m.k on such a map was nil although m['k'] found it (also C18)"),
+ ("C01", "fix: a field promoted from a nil embedded struct pointer reads as nil", "{{ o.Count }} where Count is promoted from an embedded *Inner that is nil panicked in reflect ('indirection through nil pointer to embedded struct')"),
+ ("C01", "fix: looking a slice or map up in an ordered map does not panic", "{{ ms[arr] }} / 'ms contains arr' on a yaml.MapSlice one of whose keys is a slice panicked with 'comparing uncomparable type []int'"),
+ ("C01", "fix: a value of a named string type given to the date filter", "{{ t | date: f }} with t of a named string type panicked on an unchecked .(string) assertion in Convert"),
+ ("C19", "fix: the scanner tells objects from tags by which pattern matched", "with an object-left delimiter longer than a whole tag that ends the source (Delims(\"((((\", \"))))\", \"<\", \">\"), template 'x<z>') Scan sliced past the end of the source and panicked"),
+ ("C13", "fix: the trim hyphen of a tag without arguments is not taken as its argument", "in {% name -%} the argument pattern took the hyphen: an application tag saw TagArgs() == \"-\" (and {% capture -%} captured into a variable called '-'), so the hyphen changed non-whitespace output"),
 ]
 KNOWN = [
  # (property, key, what)
